@@ -310,6 +310,14 @@ def gen_pairs(seed, count, depth):
     fixed.append((('vec', ('map', i32, string)), ('vec', ('umap', i32, string)), 1))
     fixed.append((('opt', ('vec', u16)), ('arr', u16, 2), -1)); fixed.append((('opt', i32), i32, -1)); fixed.append((i32, ('opt', i32), -1))
     fixed.append((pool.struct([('o', ('opt', string)), ('n', u8)], name='FxOptSt'), pool.struct([('o', string), ('n', u8)], name='FxPlainSt'), -1))
+    # differences confined to the 4th (5th) position of a tuple / structure / table, and sequences of integers against
+    # tuples that contain a value wrapper around that integer (BIN vs ARY)
+    fixed.append((('tup', [i32, i32, i32, i32]), ('tup', [i32, i32, i32, string]), -1))
+    fixed.append((('tup', [u8, u8, u8, u8, string]), ('tup', [u8, u8, u8, u8, u16]), -1))
+    fixed.append((pool.struct([('a', u8), ('b', u8), ('c', u8), ('d', i32), ('e', u8)], name='FxPos4A'), pool.struct([('a', u8), ('b', u8), ('c', u8), ('d', string), ('e', u8)], name='FxPos4B'), -1))
+    fixed.append((pool.table([(u8, 1, True), (u8, 2, True), (u8, 3, True), (i32, 4, True)], hash_=5, name='FxPos4Ta'), pool.table([(u8, 1, True), (u8, 2, True), (u8, 3, True), (string, 4, True)], hash_=5, name='FxPos4Tb'), -1))
+    wri = pool.wrapper(i32, name='FxWrI32')
+    fixed.append((('vec', i32), ('tup', [i32, wri]), -1)); fixed.append((('tup', [wri, i32]), ('arr', i32, 2), -1)); fixed.append((('carr', i32, 2), ('tup', [i32, wri]), -1))
     for a, b, exp in fixed:
         pairs.append((a, b, exp, ['fixed']))
     while len(pairs) < count and tries < count * 50:
@@ -393,6 +401,8 @@ def main():
                '    if (nop::IsFungible<A(const B&), B(const A&)>::value != (ab && ba)) m |= 16;',
                '    if (nop::IsFungible<void(const A&), void(const A&, int)>::value) m |= 32;',
                '    if (nop::IsFungible<void(const B&), void(const A&)>::value != ba) m |= 64;',
+               '    if (nop::IsFungible<void(int, int, int, const A&), void(int, int, int, const B&)>::value != ab) m |= 128;',
+               '    if (nop::IsFungible<void(int, int, const A&, int, int), void(int, int, const B&, int, int)>::value != ab) m |= 256;',
                '    t.sig_mismatch = m;',
                '  }',
                '  // Protocol<A>::Write/Read admit B exactly when the trait is true (overload resolution); exercised when it is.',
